@@ -214,7 +214,7 @@ theorem rangesOfChars_length (pos : Nat) (cs : List Bytes) :
   | nil => rfl
   | cons c t ih => simp [rangesOfChars, ih]
 
-theorem rangesBetweenMatches_boundaries (L : Nat) (cs : List Bytes) : ∀ (prev pos : Nat),
+theorem rangesBetweenMatches_boundaries_c (L : Nat) (cs : List Bytes) : ∀ (prev pos : Nat),
     rangesBetweenMatches L prev ((boundariesFrom pos cs).map fun p => (p, p)) =
       ⟨prev, pos⟩ :: (rangesOfChars pos cs ++ [⟨pos + cs.flatten.length, L⟩]) := by
   induction cs with
@@ -233,7 +233,7 @@ theorem fill_charMatches (line : Bytes) (cs : List Bytes) (hne : line ≠ [])
   unfold fillWithFieldsLocationsUsingRegex charMatches
   rw [hcs]
   simp only [List.isEmpty_iff, hne, if_false]
-  rw [rangesBetweenMatches_boundaries, hf, Nat.zero_add]
+  rw [rangesBetweenMatches_boundaries_c, hf, Nat.zero_add]
 
 /-- **the fields of character mode are exactly the scalar values of the record, in order** -/
 theorem charFields (line : Bytes) (cs : List Bytes) (hne : line ≠ [])
